@@ -180,46 +180,27 @@ func findIIFE(fset *token.FileSet, f *ast.File, src []byte, n int) *srcEdit {
 			for _, l := range st.Lhs {
 				lhs = append(lhs, text(l.Pos(), l.End()))
 			}
-			pre := ""
-			if st.Tok == token.DEFINE {
-				i := 0
-				for _, fld := range fl.Type.Results.List {
-					t := text(fld.Type.Pos(), fld.Type.End())
-					cnt := 1
-					for k := 0; k < cnt; k++ {
-						if lhs[i] != "_" {
-							pre += "var " + lhs[i] + " " + t + "\n"
-						}
-						i++
-					}
-				}
-			} else if st.Tok != token.ASSIGN {
-				// compound assignment `x op= func() T {...}()`: evaluate into a temporary first
-				if len(lhs) != 1 {
-					return true
-				}
-				t := text(fl.Type.Results.List[0].Type.Pos(), fl.Type.Results.List[0].Type.End())
-				tmp := fmt.Sprintf("%sResult", label)
-				body := rewrite(fl, func(r *ast.ReturnStmt) string {
-					if len(r.Results) != 1 {
-						return "break " + label
-					}
-					return "{\n" + tmp + " = " + text(r.Results[0].Pos(), r.Results[0].End()) + "\nbreak " + label + "\n}"
-				})
-				edit = &srcEdit{off(st.Pos()), off(st.End()), "var " + tmp + " " + t + "\n" + label + ":\nfor {\n" + body + "\nbreak " + label + "\n}\n" + lhs[0] + " " + st.Tok.String() + " " + tmp}
-				return false
+			// results go through fresh temporaries (the literal's body may declare names that shadow the targets)
+			var tmps, decls []string
+			i := 0
+			for _, fld := range fl.Type.Results.List {
+				t := text(fld.Type.Pos(), fld.Type.End())
+				tmp := fmt.Sprintf("%sResult%d", label, i)
+				tmps = append(tmps, tmp)
+				decls = append(decls, "var "+tmp+" "+t)
+				i++
 			}
 			body := rewrite(fl, func(r *ast.ReturnStmt) string {
-				if len(r.Results) != len(lhs) {
+				if len(r.Results) != len(tmps) {
 					return "break " + label // cannot happen for unnamed results
 				}
 				var rs []string
 				for _, e := range r.Results {
 					rs = append(rs, text(e.Pos(), e.End()))
 				}
-				return "{\n" + strings.Join(lhs, ", ") + " = " + strings.Join(rs, ", ") + "\nbreak " + label + "\n}"
+				return "{\n" + strings.Join(tmps, ", ") + " = " + strings.Join(rs, ", ") + "\nbreak " + label + "\n}"
 			})
-			edit = &srcEdit{off(st.Pos()), off(st.End()), pre + label + ":\nfor {\n" + body + "\nbreak " + label + "\n}"}
+			edit = &srcEdit{off(st.Pos()), off(st.End()), strings.Join(decls, "\n") + "\n" + label + ":\nfor {\n" + body + "\nbreak " + label + "\n}\n" + strings.Join(lhs, ", ") + " " + st.Tok.String() + " " + strings.Join(tmps, ", ")}
 		}
 		return edit == nil
 	})
